@@ -70,7 +70,7 @@ pub enum Element {
 
 pub const VIS: [&str; 6] = ["", "pub", "pub(crate)", "pub(super)", "pub(in a::b)", "pub(self)"];
 const TYPES: [&str; 8] = ["u8", "String", "Vec<u8>", "Option<T>", "&'a str", "[u8; 4]", "(u8, T)", "std::collections::HashMap<String, T>"];
-const FNAMES: [&str; 8] = ["fa", "fb", "fc", "fd", "fe", "ff", "r#type", "name"];
+const FNAMES: [&str; 8] = ["fa", "r#type", "fb", "fc", "name", "fd", "r#fn", "fe"];
 
 impl EFields {
     pub fn list(&self) -> &[EField] {
@@ -561,7 +561,8 @@ impl<'a> Interp<'a> {
                         // named fields are located by their name
                         for mut leaf in l {
                             if let Some(n) = &f.name {
-                                leaf.path.insert(0, n.clone());
+                                // (the `r#` of a raw identifier is spelling, not part of the name)
+                                leaf.path.insert(0, n.trim_start_matches("r#").to_string());
                             }
                             errors.push(leaf);
                         }
